@@ -23,6 +23,20 @@ def vocab_isa(v):
            'general': {'address_size': 16, 'registers': list(v['R']), 'identifier': {'name': 'genisa', 'version': '1.0.0', 'extension': 'gen'}},
            'operand_sets': {'imm': {'operand_values': {'i': {'type': 'numeric', 'argument': {'size': 8, 'byte_align': True}}}}},
            'instructions': {m: {'bytecode': {'value': i + 1, 'size': 8}} for i, m in enumerate(ms)}}
+    # operand sets of the usual kinds (the vocabulary of the generated packages must not depend on them)
+    if v['R']:
+        cfg['operand_sets']['regs'] = {'operand_values': {f'r_{r}': {'type': 'register', 'register': r, 'bytecode': {'value': i, 'size': 4}}
+                                                          for i, r in enumerate(v['R'])}}
+        cfg['operand_sets']['inds'] = {'operand_values': {f'i_{r}': {'type': 'indirect_register', 'register': r, 'bytecode': {'value': i, 'size': 4}}
+                                                          for i, r in enumerate(v['R'])}}
+    cfg['operand_sets']['flags'] = {'operand_values': {'fl': {'type': 'enumeration', 'bytecode': {'size': 4, 'value_dict': {'kzero': 1, 'kcarry': 2}},
+                                                              'argument': {'size': 4, 'byte_align': False, 'value_dict': {'kzero': 0, 'kcarry': 0}}}}}
+    cfg['operand_sets']['ports'] = {'operand_values': {'pn': {'type': 'numeric_enumeration', 'bytecode': {'size': 4, 'value_dict': {3: 1, 4: 2}}}}}
+    first = cfg['instructions'][ms[0]]
+    first['operands'] = {'count': 1, 'operand_sets': {'list': ['regs' if v['R'] else 'imm']}}
+    first['variants'] = [{'bytecode': {'value': 200, 'size': 8}, 'operands': {'count': 1, 'operand_sets': {'list': ['flags']}}},
+                         {'bytecode': {'value': 201, 'size': 8}, 'operands': {'count': 1, 'operand_sets': {'list': ['ports']}}},
+                         {'bytecode': {'value': 202, 'size': 8}}]
     if v['Q']:
         cfg['macros'] = {q: [{'instructions': [ms[0]]}] for q in v['Q']}
     if v['P']:
@@ -70,8 +84,10 @@ def vscode_patterns(root):
         rep = g.get('repository', {})
         if 'instructions' in rep:
             pats['instruction'] = rep['instructions'].get('begin')
+            pats['_rules'] = pats.get('_rules', []) + [('instruction', rep['instructions'].get('begin'), rep['instructions'].get('end'))]
         if 'macros' in rep:
             pats['macro'] = rep['macros'].get('begin')
+            pats['_rules'] = pats.get('_rules', []) + [('macro', rep['macros'].get('begin'), rep['macros'].get('end'))]
         if 'registers' in rep:
             pats['register'] = rep['registers'].get('match')
         d = find_named(rep.get('directives', {}), 'meta.directive')
@@ -114,10 +130,13 @@ def sublime_patterns(root):
                 ctx = syn['contexts']
                 ins = find_named(ctx.get('instructions', []), 'variable.function.instruction', 'scope')
                 mac = find_named(ctx.get('instructions', []), 'variable.function.macro', 'scope')
+                ends = [r.get('match') for r in ctx.get('pop_instruction_end', []) if r.get('pop')]
                 if ins:
                     pats['instruction'] = ins[0]['match']
+                    pats['_rules'] = pats.get('_rules', []) + [('instruction', ins[0]['match'], ends)]
                 if mac:
                     pats['macro'] = mac[0]['match']
+                    pats['_rules'] = pats.get('_rules', []) + [('macro', mac[0]['match'], ends)]
                 if 'registers' in ctx:
                     pats['register'] = ctx['registers'][0]['match']
                 pats['directive'] = [ctx['compiler_directives'][0]['match'], ctx['data_types_directives'][0]['match']]
@@ -133,13 +152,50 @@ def sublime_patterns(root):
     return pats, problems
 
 
+def compound_problems(pats, ops):
+    """Lines with two operations, 'x y': the scope an operation opens (begin/end in the TextMate grammar, push/pop in the Sublime
+    syntax) has to end where the next operation begins, so that y is classified as what it is. ops: {name: class}."""
+    out = []
+    rules = pats.get('_rules', [])
+    for x, cx in ops.items():
+        for y, cy in ops.items():
+            line = f'  {x} {y}'
+            ys = 2 + len(x) + 1
+            opened = None
+            for cls, begin, end in rules:
+                try:
+                    if begin and re.compile(begin).fullmatch(line, 2, 2 + len(x)):
+                        opened = (cls, end)
+                        break
+                except re.error:
+                    pass
+            if opened is None:
+                continue            # the single-word classification already reports this
+            ends = opened[1] if isinstance(opened[1], list) else [opened[1]]
+            closes = []
+            for e_ in ends:
+                try:
+                    m = re.compile(e_).search(line, 2 + len(x)) if e_ else None
+                except re.error:
+                    m = None
+                if m:
+                    closes.append(m.start())
+            if not closes or min(closes) > ys:
+                out.append(f'on the line "{x} {y}" the {opened[0]} scope opened by "{x}" does not end before "{y}": "{y}" is not classified {cy}')
+                continue
+            got = [cls for cls, begin, _ in rules if begin and re.compile(begin).fullmatch(line, ys, len(line))]
+            if got[:1] != [cy]:
+                out.append(f'on the line "{x} {y}", "{y}" is classified {got or "as nothing"}, the vocabulary makes it {cy}')
+    return out
+
+
 def classify(pats, lead, w):
     """set of classes whose pattern matches exactly the probe in the line '  <lead><w> 1, 2'"""
     line = f'  {lead}{w} 1, 2'
     s, e = 2, 2 + len(lead) + len(w)
     got = set()
     for cls, ps in pats.items():
-        if ps is None:
+        if ps is None or cls.startswith('_'):
             continue
         for p in (ps if isinstance(ps, list) else [ps]):
             if p is None:
@@ -193,6 +249,9 @@ def evaluate(v):
                 want = set() if cls == 'none' else {cls}
                 if got != want:
                     problems.append(f'{target}: "{lead}{w}" is classified {sorted(got) or "as nothing"}, the vocabulary makes it {cls}')
+            ops = {m: 'instruction' for m in v['M']}
+            ops.update({q: 'macro' for q in v['Q']})
+            problems.extend(f'{target}: {x}' for x in compound_problems(pats, ops))
         return problems
     finally:
         shutil.rmtree(d, ignore_errors=True)
@@ -240,7 +299,7 @@ def run(chk):
                 'For each vocabulary both editor packages are generated by the real generators; every produced file is parsed '
                 '(JSON, YAML, property list, XML, zip), searched for ##PLACEHOLDER## residue, and the syntax patterns of each '
                 'class are applied with Python re to every probe in a statement context: a probe is classified k iff the k '
-                'pattern matches exactly the probe. The same is done for the repository definitions (every real mnemonic, macro '
+                'pattern matches exactly the probe (a match that cuts an identifier between two word characters counts as classifying a part of it); on lines with two operations the scope opened by the first (begin/end, push/pop) has to end where the second begins. The same is done for the repository definitions (every real mnemonic, macro '
                 'and register must be classified as such). Non-trivial = distinct vocabulary.')
     chk.assumptions = ['the templates use only regular expression constructs Python re shares with Oniguruma ((?i), \\b, look-around, alternation)',
                        'well-formedness is decided by the standard parsers, not by TLC', 'a word is classified k iff pattern k matches exactly the word (full match inside the line)']
